@@ -60,6 +60,14 @@ class SymList:
             def app(I, x):
                 self.append_fields(self.project(x))
             return Builtin("list.append", app)
+        if name == "sort" and getattr(self, "sorted_input", False):
+            # the contract quantifies over the list AS list.sort leaves it (assumed: sort permutes and orders by key)
+            return Builtin("list.sort", lambda I, key=None, reverse=False: None)
+        if name == "clear":
+            def clr(I):
+                self.length = 0
+                self.cleared = True
+            return Builtin("list.clear", clr)
         raise Unsupported("method %s on a symbolic-length list" % name)
 
 
